@@ -52,19 +52,21 @@ def run(P: Program, rep: Report):
         construct = f"line-counter-write:{f.name}:{norm_stmt(n)}"
         loc = f"{f.module.relpath}:{n.lineno}"
         if f.name == "__init__":
-            ok = isinstance(n, ast.Assign) and isinstance(n.value, ast.UnaryOp) and ast.unparse(n.value) == "-1"
-            # paired with exactly one newline prefix
-            pre = [x for x in own_nodes(f.node) if isinstance(x, ast.Assign) and any(isinstance(t, ast.Attribute) and t.attr == sf.sm.ATTR_TEXT for t in x.targets)]
-            one_nl = False
-            if len(pre) == 1:
-                v = pre[0].value
-                if isinstance(v, ast.JoinedStr) and len(v.values) == 2 and isinstance(v.values[0], ast.Constant) and v.values[0].value == "\n" \
-                        and isinstance(v.values[1], ast.FormattedValue):
-                    one_nl = True
-                if isinstance(v, ast.BinOp) and isinstance(v.op, ast.Add) and isinstance(v.left, ast.Constant) and v.left.value == "\n":
-                    one_nl = True
-            rep.check(ok and one_nl, "C03.R2", construct, loc,
-                      "initial line counter is not -1 paired with exactly one newline prepended to the text")
+            # decided by running the constructor: the text is the argument with exactly one newline in front, the counter starts at -1
+            from ..absint import explore as _explore, Raised as _Raised, Unsupported as _Unsupported
+            from .common import driver_interp as _di
+
+            def init_run(ctx):
+                it = _di(P, ctx, "splitter")
+                try:
+                    sp = it.construct(cls, ["XYZ"], {})
+                    return (sp.attrs.get(sf.sm.ATTR_TEXT), sp.attrs.get(sf.sm.ATTR_LINE))
+                except (_Raised, _Unsupported) as e_:
+                    return (repr(e_), None)
+            for _c, (txt, ln) in _explore(init_run, 5):
+                rep.check(txt == "\nXYZ" and ln == -1 and not isinstance(ln, bool), "C03.R2", construct, loc,
+                          f"Splitter('XYZ') starts with text {txt!r} and line counter {ln!r}: expected exactly one newline in front of the text "
+                          f"paired with a counter of -1")
         elif f.name == sf.sm.M_NEXT_MARK:
             ok = isinstance(n, ast.AugAssign) and isinstance(n.op, ast.Add) and ast.unparse(n.value) == "1"
             rep.check(ok, "C03.R2", construct, loc, "line counter is not advanced by exactly +1")
